@@ -119,7 +119,7 @@ class Spec:
                                "interrupted run ended %s, uninterrupted reference %s" % (str(sig)[:150], str(ref_sig)[:150])))
         def cls(r):
             if self.deciding(r):
-                return "%s|%s|%s" % (h8(W.shape_of(r["scenario"]["prog"])), label, W.crash_label(r, None))
+                return "%s|%s|%s|%s" % (h8(W.shape_of(r["scenario"]["prog"])), label, W.crash_label(r, None), r.get("stop") if r.get("stop") != "terminal" else r.get("status"))
             return None
 
         acc.add(r, self.props, cls=cls, sc=sc, extra_viol=extra)
